@@ -392,10 +392,80 @@ class LibMixin:
             raise Unsupported("deque(iterable)")
         return self.st.new_list([], "deque")
 
+    # ---- OrderedDict: a dict plus the list of its keys in insertion order (field $okeys).
+    # Representation invariant (trusted model): the key list holds exactly the keys, each once.
     def b_new_OrderedDict(self, args, kwargs, node, anchor):
         if args:
             raise Unsupported("OrderedDict(arg)")
-        return self.st.new_dict([], "OrderedDict")
+        d = self.st.new_dict([], "OrderedDict")
+        keys = self.st.new_list([], "list")
+        self.st.fields["$okeys"] = z3.Store(self.st.field_arr("$okeys"), Val.r(d), keys)
+        return d
+
+    def od_keys(self, d):
+        return self.st.get_field(Val.r(d), "$okeys")
+
+    def od_find(self, d, k):
+        """index of key k in the key list (exists and is unique by the representation invariant)"""
+        keys = self.od_keys(d)
+        i = self.ctx.fresh("od_idx", I)
+        self.ctx.assume(z3.And(i >= 0, i < self.llen(Val.r(keys)), self.list_get(Val.r(keys), i) == k))
+        return i
+
+    def od_remove_at(self, d, i):
+        keys = self.od_keys(d)
+        r = Val.r(keys)
+        n = self.llen(r)
+        j = z3.Int("j!odrm")
+        arr = z3.Lambda([j], z3.If(j < i, z3.Select(self.lel(r), j), z3.Select(self.lel(r), j + 1)))
+        self.st.lel = z3.Store(self.st.lel, r, arr)
+        self.st.llen = z3.Store(self.st.llen, r, n - 1)
+
+    def b_OrderedDict_popitem(self, args, kwargs, node, anchor):
+        d = args[0]
+        last = kwargs.get("last", args[1] if len(args) > 1 else VTrue)
+        r = Val.r(d)
+        keys = self.od_keys(d)
+        n = self.llen(Val.r(keys))
+        self.ctx.assume(z3.And(n >= 0, n == self.dlen(r)))
+        if not self.ctx.branch(n > 0, "popitem-nonempty"):
+            self.raise_("KeyError", anchor)
+        take_last = self.ctx.branch(self.truth(last, node), "popitem-last")
+        idx = z3.simplify(n - 1) if take_last else z3.IntVal(0)
+        k = self.list_get(Val.r(keys), idx)
+        self.ctx.assume(self.dhas(r, k))
+        v = self.dget(r, k)
+        self.od_remove_at(d, idx)
+        self.dict_del(r, k)
+        self.st.log.append(LogEntry("od.popitem", [d, k], {}, None, anchor))
+        return self.st.new_list([k, v], "tuple")
+
+    def b_OrderedDict_copy(self, args, kwargs, node, anchor):
+        d = args[0]
+        new = self.dict_copy(Val.r(d), "OrderedDict")
+        keys = self.od_keys(d)
+        nk = self.st.new_list_arr(self.lel(Val.r(keys)), self.llen(Val.r(keys)), "list")
+        self.st.fields["$okeys"] = z3.Store(self.st.field_arr("$okeys"), Val.r(new), nk)
+        return new
+
+    def b_OrderedDict_items(self, args, kwargs, node, anchor):
+        d = args[0]
+        keys = self.od_keys(d)
+        r, kr = Val.r(d), Val.r(keys)
+        rid = self.st.alloc(self.table.id("dict_items"))
+        interp = self
+        val = z3.Select(self.st.dval, r)
+        karr = self.lel(kr)
+        self.st.ghost.setdefault("views", {})[rid] = Seq(
+            "list", self.llen(kr), lambda i: interp.st.new_list([z3.Select(karr, i), z3.Select(val, z3.Select(karr, i))], "tuple"))
+        return VRef(rid)
+
+    def b_OrderedDict_get(self, args, kwargs, node, anchor):
+        return self.b_dict_get(args, kwargs, node, anchor)
+
+    def b_OrderedDict_update(self, args, kwargs, node, anchor):
+        """d.update(other): insert other's items in other's order (existing keys keep their position)"""
+        raise Unsupported("OrderedDict.update (use the Resource.merge contract)")
 
     def b_new_Lock(self, args, kwargs, node, anchor):
         return VRef(self.st.alloc(self.table.id("Lock")))
